@@ -176,7 +176,7 @@ class _Run:
         if isinstance(f, ast.Attribute):
             if nm == "DataFrame":
                 kw = {k.arg: it.ev(k.value) for k in node.keywords if k.arg}
-                args = [it.ev(a) for a in node.args]
+                args = it.call_args(node)
                 return SymObj("DataFrame", label="df", data=args[0] if args else kw.get("data"), columns=kw.get("columns"), index=kw.get("index"))
             if nm in ("warn", "simplefilter"):
                 return None
@@ -187,7 +187,7 @@ class _Run:
             if isinstance(recv, Bound):
                 return NotImplemented
             if isinstance(recv, list) and nm == "reshape":
-                a = [it.ev(x) for x in node.args]
+                a = it.call_args(node)
                 a = list(a[0]) if len(a) == 1 and isinstance(a[0], (tuple, list)) else a
                 if a == [1, -1] and not any(isinstance(r, list) for r in recv):
                     return [list(recv)]
@@ -492,10 +492,12 @@ def _construct(repo, cls, cfg, me):
         return False
 
 
-def run_family(repo, cls, spec, entries, cfg):
-    """-> (emitted scalar ConsV list, emitted LMIs, expected scalar list, expected LMIs, model)"""
+def run_family(repo, cls, spec, entries, cfg, named=False):
+    """-> (emitted scalar ConsV list, emitted LMIs, expected scalar list, expected LMIs, model); named: the point of the second sample has a name"""
     hook = cls.find_method(K.HOOK)
     pts = _samples("xgf", 3)
+    if named:
+        pts[1][0].attrs["name"] = "P1"
     me = SymObj(cls.name, label="self", _cls=cls, is_function=True, name=None, counter=7, _is_leaf=True, reuse_gradient=False,
                 list_of_points=list(pts), list_of_stationary_points=[], list_of_class_constraints=[], list_of_class_psd=[],
                 list_of_constraints=[], list_of_psd=[], tables_of_constraints={})
@@ -684,11 +686,99 @@ def class_lmis_symmetric(ctx, only=None):
     return n
 
 
+def _table_problem(cls, me, label):
+    """first thing wrong with the tables of multipliers / the emitted objects of one unrolled hook (None: nothing)"""
+    cons = [c for c in me.attrs["list_of_class_constraints"] if isinstance(c, SymObj)]
+    twice = [c for k, c in enumerate(cons) if any(c is d for d in cons[:k])]
+    if twice:
+        return "[%s] one Constraint object is emitted %d times (`%s`): its cells share one name and one multiplier" % (
+            label, sum(1 for d in cons if d is twice[0]), twice[0].attrs.get("cons")), 0
+    ident = lambda sample, k: sample[0].attrs.get("name") or "Point_%d" % k
+    lists = {"all samples": me.attrs["list_of_points"], "the stationary samples": me.attrs["list_of_stationary_points"]}
+    if isinstance(me.attrs.get("T"), SymObj):
+        lists["the samples of the adjoint"] = me.attrs["T"].attrs.get("list_of_points", [])
+    labels = {what: [ident(s0, k) for k, s0 in enumerate(l0)] for what, l0 in lists.items()}
+    fid = me.attrs.get("name") or "Function_%s" % me.attrs.get("counter")
+    tabs = me.attrs.get("tables_of_constraints")
+    if not isinstance(tabs, dict):
+        raise AnalysisError("tables_of_constraints of %s is not a dict" % cls.name)
+    n = 0
+    for tname, t in tabs.items():
+        for tt in (t if isinstance(t, list) else [t]):
+            n += 1
+            data = tt.attrs.get("data") if isinstance(tt, SymObj) and tt.kind == "DataFrame" else None
+            if not (isinstance(data, list) and all(isinstance(r0, list) for r0 in data) and len({len(r0) for r0 in data}) <= 1):
+                raise AnalysisError("table `%s` of %s: data outside the fragment" % (tname, cls.name))
+            nr, nc = len(data), (len(data[0]) if data else 0)
+            sizes = {len(l0): what for what, l0 in lists.items()}
+            if nc not in sizes or (nr != 1 and nr not in sizes):
+                return "[%s] the table `%s` has %d row(s) and %d column(s); the function has %s" % (
+                    label, tname, nr, nc, ", ".join("%d = %s" % (k0, v0) for k0, v0 in sorted(sizes.items()))), n
+            cells = [x for r0 in data for x in r0 if isinstance(x, SymObj)]
+            if any(x is y for k, x in enumerate(cells) for y in cells[:k]):
+                return "[%s] two cells of the table `%s` hold the same Constraint object" % (label, tname), n
+            cols, rows = tt.attrs.get("columns"), tt.attrs.get("index")
+            if (isinstance(cols, list) and len(cols) != nc) or (isinstance(rows, list) and len(rows) != nr):
+                return "[%s] the table `%s` has %d row(s) and %d column(s) but %s row label(s) and %s column label(s)" % (
+                    label, tname, nr, nc, len(rows) if isinstance(rows, list) else "no", len(cols) if isinstance(cols, list) else "no"), n
+            if isinstance(cols, list) and not all(isinstance(x, str) for x in cols):
+                return "[%s] the columns of the table `%s` are labelled %s, not by the names of the samples" % (label, tname, cols), n
+            if isinstance(cols, list) and all(isinstance(x, str) for x in cols):
+                if not any(cols == l0 for l0 in labels.values()):
+                    return "[%s] the columns of the table `%s` are labelled %s; the samples of the function are called %s" % (
+                        label, tname, cols, " / ".join("%s (%s)" % (l0, what) for what, l0 in labels.items() if len(l0) == len(cols)) or "otherwise"), n
+                if nr > 1 and isinstance(rows, list) and all(isinstance(x, str) for x in rows) and not any(rows == l0 for l0 in labels.values()):
+                    return "[%s] the rows of the table `%s` are labelled %s; the samples of the function are called %s" % (
+                        label, tname, rows, " / ".join("%s (%s)" % (l0, what) for what, l0 in labels.items() if len(l0) == len(rows)) or "otherwise"), n
+                def base_atoms(vals):
+                    out = set()
+                    for v0 in vals:
+                        for a0 in v0.atoms():
+                            while isinstance(a0, tuple) and len(a0) == 3 and a0[0] == "P":
+                                a0 = a0[2]          # a block of a point is about that point
+                            out.add(a0)
+                    return out
+                row_lists = [lists[w0] for w0, l0 in labels.items() if isinstance(rows, list) and rows == l0] if nr > 1 or (isinstance(rows, list) and any(rows == l0 for l0 in labels.values())) else []
+                col_lists = [lists[w0] for w0, l0 in labels.items() if cols == l0]
+                every = base_atoms([v0.val for l0 in lists.values() for s0 in l0 for v0 in s0])
+                for i0, r0 in enumerate(data):
+                    for j0, x in enumerate(r0):
+                        cv = x.attrs.get("cons") if isinstance(x, SymObj) else None
+                        if isinstance(cv, ConsV) and col_lists:
+                            # the constraint of a cell is about the samples of its row and column: among the atoms of the function's samples, it
+                            # mentions only those of the sample of its column (and of its row, in a table of pairs)
+                            mine = base_atoms([cv]) & every
+                            ok_cell = False
+                            anchor = base_atoms([v0.val for s0 in lists["the stationary samples"] for v0 in s0])          # a condition may refer to the minimiser
+                            for cl in col_lists:
+                                allowed = base_atoms([v0.val for v0 in cl[j0]]) | anchor
+                                if mine <= allowed:
+                                    ok_cell = True
+                                for rl in row_lists:
+                                    if mine <= allowed | base_atoms([v0.val for v0 in rl[i0]]):
+                                        ok_cell = True
+                            if not ok_cell:
+                                return "[%s] cell (%d, %d) of the table `%s` holds `%s`, which is not about the sample(s) of its row and column (%s%s)" % (
+                                    label, i0, j0, tname, cv, (rows[i0] + ", ") if isinstance(rows, list) and len(rows) == nr and isinstance(rows[i0], str) else "", cols[j0]), n
+                        nm0 = x.attrs.get("name") if isinstance(x, SymObj) else None
+                        if not isinstance(nm0, str):
+                            continue
+                        pair = "(%s, %s)" % (rows[i0], cols[j0]) if isinstance(rows, list) and len(rows) == nr and isinstance(rows[i0], str) else None
+                        single = "(%s)" % cols[j0]
+                        want = pair if (nr > 1 and pair) else single
+                        if fid not in nm0 or not (want in nm0 or (nr == 1 and pair is not None and pair in nm0)):
+                            return "[%s] the constraint in cell (%d, %d) of the table `%s` is named `%s`: a name that identifies the function and the %s reads `...%s...%s`" % (
+                                label, i0, j0, tname, nm0, "pair" if "," in want else "sample", fid, want), n
+    return None, n
+
+
 def r_hook_tables(ctx, only=None):
-    """C17 on the unrolled hooks: after the hook of a family has run on its model (three samples, a stationary one where the family has one), every
-    table of multipliers it stored has one column per sample of a recorded list of the function -- all samples, the stationary samples, the samples
-    of the adjoint -- and one row per sample of such a list (a single row for a condition on single samples); and no Constraint object sits in two
-    cells or is emitted twice (one object has one name and one multiplier: two cells sharing it show the name and the value written last)."""
+    """C17 on the unrolled hooks: after the hook of a family has run on its model (three samples, a stationary one where the family has one; once
+    with unnamed points, once with the point of the second sample named), every table of multipliers it stored has one column per sample of a
+    recorded list of the function -- all samples, the stationary samples, the samples of the adjoint -- and one row per sample of such a list (a
+    single row for a condition on single samples), labelled by the samples' own names (or `Point_<position>`); no Constraint object sits in two
+    cells or is emitted twice (one object has one name and one multiplier: two cells sharing it show the name and the value written last); and the
+    name of the constraint in a cell contains the function's id and the labels of its row and column."""
     repo = ctx.repo
     spec = formula.load_spec()
     fams = sorted([c for c in repo.all_classes() if c.name in spec.CLASSES and c.find_method(K.HOOK) is not None and (only is None or c.name in only)],
@@ -703,38 +793,14 @@ def r_hook_tables(ctx, only=None):
             for cfg in family_configs(repo, cls, entries):
                 label = ", ".join("%s %s" % (k0.replace("__stationary", "stationary sample"),
                                              {True: "finite / declared", False: "infinite / not declared", None: "absent", "given": "given"}[v0]) for k0, v0 in sorted(cfg.items())) or "default"
-                try:
-                    _a, _b, _c, _d, me = run_family(repo, cls, spec, entries, cfg)
-                except ProgramRaise:
-                    continue          # reported by R-HOOKPROG under C03 / C04
-                ran += 1
-                cons = [c for c in me.attrs["list_of_class_constraints"] if isinstance(c, SymObj)]
-                twice = [c for k, c in enumerate(cons) if any(c is d for d in cons[:k])]
-                if twice:
-                    bad = "[%s] one Constraint object is emitted %d times (`%s`): its cells share one name and one multiplier" % (
-                        label, 1 + sum(1 for d in cons if d is twice[0]) - 1, twice[0].attrs.get("cons"))
-                    break
-                sizes = {len(me.attrs["list_of_points"]): "all samples", len(me.attrs["list_of_stationary_points"]): "the stationary samples"}
-                if isinstance(me.attrs.get("T"), SymObj):
-                    sizes[len(me.attrs["T"].attrs.get("list_of_points", []))] = "the samples of the adjoint"
-                tabs = me.attrs.get("tables_of_constraints")
-                if not isinstance(tabs, dict):
-                    raise AnalysisError("tables_of_constraints of %s is not a dict" % cls.name)
-                for tname, t in tabs.items():
-                    for tt in (t if isinstance(t, list) else [t]):
-                        n_tables += 1
-                        data = tt.attrs.get("data") if isinstance(tt, SymObj) and tt.kind == "DataFrame" else None
-                        if not (isinstance(data, list) and all(isinstance(r0, list) for r0 in data) and len({len(r0) for r0 in data}) <= 1):
-                            raise AnalysisError("table `%s` of %s: data outside the fragment" % (tname, cls.name))
-                        nr, nc = len(data), (len(data[0]) if data else 0)
-                        if nc not in sizes or (nr != 1 and nr not in sizes):
-                            bad = "[%s] the table `%s` has %d row(s) and %d column(s); the function has %s" % (
-                                label, tname, nr, nc, ", ".join("%d = %s" % (k0, v0) for k0, v0 in sorted(sizes.items())))
-                            break
-                        cells = [x for r0 in data for x in r0 if isinstance(x, SymObj)]
-                        if any(x is y for k, x in enumerate(cells) for y in cells[:k]):
-                            bad = "[%s] two cells of the table `%s` hold the same Constraint object" % (label, tname)
-                            break
+                for named in (False, True):
+                    try:
+                        _a, _b, _c, _d, me = run_family(repo, cls, spec, entries, cfg, named=named)
+                    except ProgramRaise:
+                        continue          # reported by R-HOOKPROG under C03 / C04
+                    ran += 1
+                    bad, n0 = _table_problem(cls, me, label + (", the point of the second sample named P1" if named else ""))
+                    n_tables += n0
                     if bad:
                         break
                 if bad:
@@ -743,8 +809,9 @@ def r_hook_tables(ctx, only=None):
             ctx.notes.append("R-HOOKTABLE %s skipped: %s" % (cls.name, ex))
             continue
         if ran:
+            ctx.program_ok[("hooktable", cls.name)] = bad is None
             ctx.ob("R-HOOKTABLE", "%s.%s::tables of multipliers (unrolled)" % (cls.name, K.HOOK), bad is None,
-                   "every table has one column (and row) per sample of a recorded list; every cell has a Constraint object of its own" if bad is None else bad,
-                   loc(hook, hook))
+                   "every table has one column (and row) per sample of a recorded list, labelled by the samples; every cell has a Constraint object of its own, "
+                   "named after the function, its row and its column" if bad is None else bad, loc(hook, hook))
     ctx.count("tables of multipliers examined", n_tables)
     return n_tables
